@@ -23,6 +23,8 @@ structure World where
   refSpace : List (RefId × Nat) := []
   /-- the most recent `eval`: the element and the state it started from (for `obs handled`) -/
   lastEval : Option (Node × St) := none
+  /-- a stack-trace session is active -/
+  tracing : Bool := false
 
 def World.cell? (w : World) (c : CellId) : Option CellDef :=
   (w.cells.find? (·.1 == c)).map (·.2)
@@ -98,6 +100,7 @@ def obs (w : World) (what : String) : World × String :=
   | "tb" =>
     let e := match s.lastErr with | some e => showErr e | none => "-"
     (w, s!"tb {e} " ++ " ".intercalate (s.lastTb.map showNode))
+  | "maxdepth" => (w, s!"maxdepth {w.env.maxdepth}")
   | "quiescent" =>
     (w, s!"q stack={s.stack.length} idx={s.idx.length} refstack={s.refstack.length}")
   | "handled" =>
@@ -116,15 +119,28 @@ def obs (w : World) (what : String) : World × String :=
         (w, s!"handled {p.2.rolledback.length} {other.length} {(other.map (·.2)).eraseDups.length}")
   | _ => (w, "bad-op")
 
+def parseAdmin? : String → Option Admin
+  | "start" => some .startTrace | "stop" => some .stopTrace | "get" => some .getTrace
+  | "clear" => some .clearTrace | "tracestack" => some .traceStack | "getrecursion" => some .getRecursion
+  | "geterror" => some .getError | "gettraceback" => some .getTraceback | "setsame" => some .setRecursionSame
+  | _ => none
+
 def step (w : World) (line : String) : World × String :=
   match tokenize line with
   | ["reset"] => ({}, "ok")
+  | ["admin", what] => match parseAdmin? what with
+    | some a =>
+      if a.refused w.tracing then (w, "err Runtime") else
+      ({ w with st := w.st.admin a, tracing := a.tracing w.tracing },
+       if a == .getRecursion then s!"ok {w.env.maxdepth}" else "ok")
+    | none => (w, "bad-op")
   | ["maxdepth", n] => match n.toNat? with
     | some n => ({ w with maxdepth := n }, "ok")
     | none => (w, "bad-op")
   | "cell" :: id :: cached :: an :: np :: body =>
     match id.toNat?, np.toNat?, parseExpr body with
     | some id, some np, some (e, []) =>
+      if !blocksSimple e then (w, "unsupported: a try inside an except/finally block") else
       let d : CellDef := { cached := cached = "1", allowNone := (if an = "n" then none else some (an = "1")), nparams := np, body := e }
       ({ w with cells := (id, d) :: w.cells.filter (·.1 != id) }, "ok")
     | _, _, _ => (w, "bad-op")
@@ -180,6 +196,7 @@ def step (w : World) (line : String) : World × String :=
     -- `space.new_cells(name, formula, is_cached)` (+ `allow_none`, which clears nothing)
     match id.toNat?, np.toNat?, parseExpr body with
     | some id, some np, some (e, []) =>
+      if !blocksSimple e then (w, "unsupported: a try inside an except/finally block") else
       match w.cell? id with
       | some _ => (w, "err Value")
       | none =>
@@ -207,6 +224,7 @@ def step (w : World) (line : String) : World × String :=
   | "setformula" :: id :: body =>
     match id.toNat?, parseExpr body with
     | some id, some (e, []) =>
+      if !blocksSimple e then (w, "unsupported: a try inside an except/finally block") else
       match w.cell? id with
       | none => (w, if w.declared id then "err Deleted" else "err Name")
       | some d =>
